@@ -1153,6 +1153,16 @@ class Builder:
             return out
         if p["k"] == "lit" and p["t"] == "char":
             return [p["v"]]
+        if p["k"] == "range":
+            # 'a'..='f'  /  'a'..'g'
+            m_ = re.fullmatch(r"'(\\?.)'\s*\.\.(=?)\s*'(\\?.)'", (p.get("src") or "").strip())
+            if m_ and len(m_.group(1)) == 1 and len(m_.group(3)) == 1:
+                lo, hi = ord(m_.group(1)), ord(m_.group(3)) + (1 if m_.group(2) else 0)
+                if 0 <= hi - lo <= 256:
+                    return [chr(c_) for c_ in range(lo, hi)]
+            return None
+        if p["k"] in ("ref", "typed"):
+            return self._char_pat(p["pat"])
         return None
 
 
